@@ -34,6 +34,9 @@ class CallMixin:
                 isinstance(node.func.value.func, ast.Name) and node.func.value.func.id == "super":
             return self._super_call(node, fr)
         fn = self.eval(node.func, fr)
+        lazy = self._lazy_anyall(fn, node, fr)
+        if lazy is not None:
+            return lazy
         args: List[Any] = []
         for a in node.args:
             if isinstance(a, ast.Starred):
@@ -43,10 +46,10 @@ class CallMixin:
                 else:
                     args.append(Spread(v))
             else:
-                args.append(self.eval(a, fr))
+                args.append(self._unwrap1(self.eval(a, fr)))
         kwargs: Dict[str, V] = {}
         for k in node.keywords:
-            v = self.eval(k.value, fr)
+            v = self._unwrap1(self.eval(k.value, fr))
             if k.arg is None:
                 if isinstance(v, DictV) and v.concrete() and all(
                         isinstance(kk, Const) and isinstance(kk.value, str) for kk, _ in v.pairs()):
@@ -63,6 +66,33 @@ class CallMixin:
             else:
                 kwargs[k.arg] = v
         return self._invoke(fn, args, kwargs, node)
+
+    def _lazy_anyall(self, fn: V, node: ast.Call, fr: Frame) -> Optional[V]:
+        """any(<genexp over a concrete sequence>) / all(...): the generator is consumed lazily, element by element,
+        and the call stops at the first deciding element - evaluated that way (an or-/and-chain)."""
+        if not (isinstance(fn, Ext) and fn.name in ("builtins.any", "builtins.all")) or node.keywords or len(node.args) != 1:
+            return None
+        g = node.args[0]
+        if not isinstance(g, (ast.GeneratorExp, ast.ListComp)) or len(g.generators) != 1 or g.generators[0].is_async:
+            return None
+        gen = g.generators[0]
+        it = self.eval(gen.iter, fr)
+        if not (isinstance(it, (ListV, TupleV)) and it.concrete()):
+            return None
+        if isinstance(g, ast.ListComp):
+            return None         # a list is built eagerly: every element is evaluated
+        is_any = fn.name == "builtins.any"
+        inner = Frame(fr.func, fr.module, {}, fr.cls, fr.self_val, closure=fr)
+        for item in list(it.items):
+            self.assign(gen.target, item, inner, node)
+            if not all(self.decide(self.eval(c, inner), c) for c in gen.ifs):
+                continue
+            t = self.decide(self.eval(g.elt, inner), g.elt)
+            if t and is_any:
+                return Const(True)
+            if not t and not is_any:
+                return Const(False)
+        return Const(not is_any)
 
     def _super_call(self, node: ast.Call, fr: Frame) -> V:
         attr = node.func.attr  # type: ignore
@@ -309,7 +339,7 @@ class CallMixin:
             self.partial(name, PARTIAL_CALLS[name], node, operands=tuple(a for a in args if isinstance(a, V)))
         elif name not in TOTAL_CALLS:
             self.emit("unknown_callee", node, callee=name)
-        kind = {"re.search": None, "math.isclose": "bool", "math.isfinite": "bool", "builtins.round": "int",
+        kind = {"re.search": None, "re.compile": "Pattern", "math.isclose": "bool", "math.isfinite": "bool", "builtins.round": "int",
                 "math.floor": "int", "math.ceil": "int", "builtins.repr": "str", "builtins.str": "str",
                 "random.randint": "int", "random.uniform": "float", "copy.deepcopy": None,
                 "builtins.sorted": "list", "builtins.hash": "int", "builtins.abs": None,
@@ -418,6 +448,7 @@ class CallMixin:
 
     def x_len(self, args: List[V], kwargs: Dict[str, V], node: Any) -> Optional[V]:
         x = args[0]
+        x = self._unwrap1(x)
         if isinstance(x, (ListV, TupleV, SetV, DictV)) and x.concrete():
             return Const(len(x.items))
         if isinstance(x, Const) and isinstance(x.value, (str, bytes, tuple, list, dict)):
@@ -518,6 +549,8 @@ class CallMixin:
                     return args[2]
             if isinstance(recv, ClassV):
                 return self.getattr(recv, name, node)
+            if len(args) == 2 and isinstance(recv, (PropsV, SchemaV, Inst, ModV)):
+                return self.getattr(recv, name, node)      # getattr(x, "name") is x.name
             t = Term("getattr", (recv, name), node=node)
             if len(args) == 2:
                 self.partial("getattr", (AttributeError,), node, operands=(recv, args[1]))
@@ -549,6 +582,7 @@ class CallMixin:
 
     def x_sorted(self, args: List[V], kwargs: Dict[str, V], node: Any) -> Optional[V]:
         if args:
+            args = [self._unwrap1(args[0])] + list(args[1:])
             ek = self._elem_kind(args[0])
             if isinstance(args[0], (ListV, TupleV, SetV)) and args[0].concrete():
                 ks = {self.kind_of(x) for x in args[0].items}
@@ -581,6 +615,15 @@ class CallMixin:
                     return Const(True)
                 if all(t is False for t in ts):
                     return Const(False)
+            if len(x.items) <= 4:
+                # a short concrete sequence of undecided conditions: decide them one after the other
+                for i in x.items:
+                    t = self.decide(i, node)
+                    if t and op == "any":
+                        return Const(True)
+                    if not t and op == "all":
+                        return Const(False)
+                return Const(op == "all")
         return Term(op, (x,), kind="bool", node=node)
 
     def x_copy_deepcopy(self, args: List[V], kwargs: Dict[str, V], node: Any) -> Optional[V]:
@@ -680,6 +723,7 @@ class CallMixin:
             if attr == "join" and args:
                 self.emit("join", node, sep=recv, iterable=args[0])
                 x = args[0]
+                x = self._unwrap1(x)
                 if isinstance(x, (ListV, TupleV)) and x.concrete() and isinstance(recv, Const):
                     pieces: List[Any] = []
                     for i, it in enumerate(x.items):
@@ -751,6 +795,10 @@ class CallMixin:
         k = self.kind_of(recv)
         if attr == "__accept__":
             return self.accept(recv, args, kwargs, node)
+        if isinstance(recv, Term) and recv.op == "call" and len(recv.args) >= 2 and recv.args[0] == "re.compile" \
+                and attr in ("search", "match", "fullmatch") and len(recv.args) == 2 and not kwargs:
+            # re.compile(P).search(s) is re.search(P, s): same compiled pattern, same result
+            return self._call_ext(f"re.{attr}", [recv.args[1]] + list(args), kwargs, node)
         if k == "Props" and attr in ("update", "set", "get"):
             self.emit("call", node, callee=f"Props.{attr}", args=args, kwargs=kwargs, resolved=True, recv=recv)
             if attr == "get":
